@@ -34,6 +34,11 @@ fn main() {
                 None => 2,
             }
         }
+        Some("spec-vectors") => {
+            // vectors of the Rust reference model, to be cross-checked by refmodel/spec.py
+            decaf_verif::refmodel::print_spec_vectors();
+            0
+        }
         Some("list") => {
             for id in decaf_verif::props::IDS {
                 println!("{id}");
